@@ -215,6 +215,8 @@ func init() {
 			return fr.in.bytesEqual(s[:len(p)], p)
 		},
 
+		"internal/stringslite.Clone": func(fr *frame, a []value) value { return a[0] },
+		"strings.Clone":              func(fr *frame, a []value) value { return a[0] },
 		// ---- strings.Builder
 		"(*strings.Builder).copyCheck": noop,
 
@@ -367,6 +369,7 @@ func init() {
 	initFmtExternals()
 	initSortExternals()
 	initRegexExternals()
+	initReplacerExternals()
 	initVerifAPI()
 }
 
